@@ -20,6 +20,9 @@ type ClearsignCase struct {
 	Want        []ParaWant `json:"want"` // paragraphs of the signed text
 	Fault       string     `json:"fault"`
 	MustSucceed bool       `json:"mustSucceed"` // untampered + signer in keyring
+	// MustFail: the signature armor itself is damaged beyond doubt (a character of its CRC-24
+	// line replaced by another base64 character): reading has to fail
+	MustFail bool `json:"mustFail,omitempty"`
 	// ThenKeyring: after the first read, the SAME keyring variable is changed in place to these
 	// keys (which do not include the signer; may be none) and the same bytes are read again - that
 	// second read must fail.
@@ -103,6 +106,9 @@ func checkClearsignWith(c ClearsignCase, kr openpgp.EntityList, armored bool, kr
 		if krNote != "" {
 			how += " (" + krNote + ")"
 		}
+		if rerr == nil && c.MustFail {
+			return errf("%s: a clearsigned document whose signature armor is damaged (fault %s: checksum line altered) was accepted, signer %s", how, c.Fault, fingerprint(signer))
+		}
 		if rerr != nil {
 			if c.MustSucceed {
 				return errf("%s: correctly signed document with the signer in the keyring was rejected: %v", how, rerr)
@@ -156,7 +162,7 @@ func checkClearsignWith(c ClearsignCase, kr openpgp.EntityList, armored bool, kr
 
 var specC11 = Register(&Spec[ClearsignCase]{
 	Prop: "C11", Name: "clearsign",
-	Rule: "fault enumeration over clearsigned documents: C07 documents (1..3 paragraphs, LF) signed with clearsign.Encode by an RSA entity from a per-process pool; keyring = signer only / signer among others / others only / empty for the unmutated document; the same keyring OBJECT changed in place (to other keys, to no keys) between two reads of the same bytes - the second read must fail; then with the signer in the keyring EVERY single-byte substitution (XOR 0x01, XOR 0x20, 'A'), EVERY single-byte deletion, EVERY single-byte insertion ('A', blank, newline), EVERY truncation length, splices of a foreign paragraph before the armor, inside the signed text, between text and signature, inside the signature armor and after it, replacement of the signature by that of another key or of another text, and removal of the signature block. Oracle: reading (ParagraphReader.All and Decoder.Decode) ends in an error, or succeeds with Signer() == signing entity in the keyring and paragraphs == those of the signed text; success with a nil signer is allowed only when the input no longer starts with the armor header; the unmutated document with the signer in the keyring must be accepted. Non-trivial: every faulted case; distinct by (bytes, keyring).",
+	Rule: "fault enumeration over clearsigned documents: C07 documents (1..3 paragraphs, LF) signed with clearsign.Encode by an RSA entity from a per-process pool; keyring = signer only / signer among others / others only / empty for the unmutated document; the same keyring OBJECT changed in place (to other keys, to no keys) between two reads of the same bytes - the second read must fail; then with the signer in the keyring EVERY single-byte substitution (XOR 0x01, XOR 0x20, 'A'), EVERY single-byte deletion, EVERY single-byte insertion ('A', blank, newline), EVERY truncation length, splices of a foreign paragraph before the armor, inside the signed text, between text and signature, inside the signature armor and after it, replacement of the signature by that of another key or of another text, and removal of the signature block; each character of the armor's CRC-24 line replaced by other base64 characters (must fail: the signature is damaged, as gpgv says too). Oracle: reading (ParagraphReader.All and Decoder.Decode) ends in an error, or succeeds with Signer() == signing entity in the keyring and paragraphs == those of the signed text; success with a nil signer is allowed only when the input no longer starts with the armor header; the unmutated document with the signer in the keyring must be accepted. Non-trivial: every faulted case; distinct by (bytes, keyring).",
 	Check: checkClearsign,
 })
 
@@ -219,6 +225,24 @@ func enumerateClearsignFaults(b SignBase, thorough bool, yield func(ClearsignCas
 	}
 	n := len(signed)
 	mut := func(f func(out []byte) []byte) []byte { return f(append([]byte{}, signed...)) }
+	// the armor checksum: the line "=XXXX" before the END line of the signature
+	crcAt := -1
+	if k := bytes.LastIndex(signed, []byte("\n=")); k >= 0 && k+6 < len(signed) && signed[k+6] == '\n' {
+		crcAt = k + 2
+	}
+	for i := 0; crcAt >= 0 && i < 4; i++ {
+		for _, repl := range []byte{'A', 'b', '7', '/'} {
+			if signed[crcAt+i] == repl {
+				continue
+			}
+			p := crcAt + i
+			c := mk(mut(func(o []byte) []byte { o[p] = repl; return o }), fmt.Sprintf("armor-crc-%c@%d", repl, i))
+			c.MustFail = true
+			if !yield(c) {
+				return false
+			}
+		}
+	}
 	for i := 0; i < n; i++ {
 		for _, x := range []byte{0x01, 0x20} {
 			if !yield(mk(mut(func(o []byte) []byte { o[i] ^= x; return o }), fmt.Sprintf("subst-xor%02x@%d", x, i))) {
